@@ -220,6 +220,9 @@ def make_visit(prog):
                     nv = value + 100
                 elif type(value) is str:
                     nv = value.upper()
+            if act == 'wrap' and is_container(value):
+                # rewrite the (already rebuilt) container itself, in a way that is not idempotent
+                nv = ('W', key if not is_container(key) else None, value)
             return nk, nv
         return True
     return visit
@@ -405,7 +408,7 @@ def gen_prog(r):
                          ['key_is', r.choice(KEYS)], ['type', r.choice(['int', 'str', 'list', 'dict', 'tuple',
                                                                         'NoneType', 'set', 'frozenset', 'bool'])],
                          ['value_eq', r.choice(LEAVES)], ['empty']])
-        act = r.choice(['keep', 'drop', 'drop', 'same', 'rename', 'bump', 'both'])
+        act = r.choice(['keep', 'drop', 'drop', 'same', 'rename', 'bump', 'both', 'wrap'])
         rules.append([pred, act])
     return rules
 
